@@ -206,7 +206,7 @@ impl<'a> P<'a> {
             Tok::Word(w) => {
                 let up = w.to_ascii_uppercase();
                 match up.as_str() {
-                    "NULL" | "TRUE" | "FALSE" | "DEFAULT" | "CURRENT_DATE" | "CURRENT_TIME" | "CURRENT_TIMESTAMP" | "UNKNOWN" => {
+                    "NULL" | "TRUE" | "FALSE" | "DEFAULT" | "CURRENT_DATE" | "CURRENT_TIME" | "CURRENT_TIMESTAMP" | "LOCALTIMESTAMP" | "UNKNOWN" => {
                         if self.peek_at(1) != Some(&Tok::LParen) {
                             self.i += 1;
                             return Ok(PT::Kw(up));
